@@ -3,13 +3,13 @@ CFG = dict(
     level="exploration",
     rule="cases = (VRP set, route prefix, origin derivation) evaluated on the real RpkiTable against a brute-force RFC 6811 oracle",
     monitors=["state == RFC6811(VRPs, route, origin)", "matched/unmatched lists == covering VRPs partitioned",
-              "Condition::Rpki via apply_import agrees", "iter() as multiset == set model after every op", "no panic"],
+              "Condition::Rpki via apply_import agrees (single and accumulated assignments in both orders, the VRP table handed over only when the assignment says it needs it, as TableManager::apply_import does)", "iter() as multiset == set model after every op", "no panic"],
     assumptions=["VRP prefixes have clean host bits (what a conforming cache sends)",
                  "origin of an AS_SET-tailed path: RFC 6811 NONE or the local AS are both accepted (statement silent)",
                  "an empty per-family VRP table may report 'no result' instead of NotFound to the policy condition"],
     floor=dict(evaluations=100000, nontrivial=50000,
                counters={"shape:cover": 1000, "shape:more-specific-only": 1000, "shape:cover+sibling": 1000,
-                         "route:off-byte": 1000, "policy-condition-evals": 1000, "histories": 100}),
+                         "route:off-byte": 1000, "policy-condition-evals": 1000, "policy-condition-evals-accumulated-assignment": 1000, "histories": 100}),
     quick=[e1("all", "c12", "debug", 1, 40), e1("all", "c12", "release", 1, 40)],
     thorough=[e1("exh", "c12", "debug", 6, 200, part="exhaustive"),
               e1("rnd", "c12", "release", 6, 200, part="random"),
